@@ -148,7 +148,7 @@ class C18(Prop):
         with an event object, NEED_TIME set or not) and solicited responses with a wrong sequence"""
         out = []
         useq = rng.below(16)
-        wrong = rng.choice([s for s in range(16) if s not in seqs])
+        wrong = rng.choice([q for q in range(16) if q not in seqs])
         kind = rng.choice(["unsol", "unsol-need", "unsol-nocon", "unsol-data", "wrongseq", "wrongseq-need", "wrongseq-delay",
                            "wrongseq-objs"])
         if kind == "unsol":
@@ -171,7 +171,7 @@ class C18(Prop):
         sid = "c18_%d" % i
         kind = rng.choice(["plain", "plain", "plain", "varied", "inject", "inject", "inject", "dishonest", "saturated",
                            "need", "tamper", "tamper", "drop", "dup", "overflow", "overflow", "noclock", "multi",
-                           "timeout-edge", "late"])
+                           "timeout-edge", "late", "chaos", "chaos", "chaos"])
         proc = rng.choice(PROCS)
         c0 = self.rand_c0(rng)
         meta = {"kind": kind, "proc": proc, "c0": c0}
@@ -183,6 +183,45 @@ class C18(Prop):
             if extra:
                 meta.update(extra)
             return Case(sid, sc.script(sid, tail), meta)
+
+        if kind == "chaos":
+            # everything at once, no expectation beyond the generic ones: several requests, changing
+            # delays, losses, duplicates (also stale ones that arrive during a later exchange),
+            # tampered responses, injected fragments, the master clock switched off and on
+            if c0 > MAXTS - 5000000 and rng.chance(3, 4):
+                c0 = rng.below(1 << 47); meta["c0"] = c0
+            sc = Scenario(proc, c0, tmo=rng.choice([301, 1001, 5003]), need=rng.choice(["auto", "auto", "stuck", "clear"]))
+            small = [0, 0, 1, 2, 3, 10, 50, 200, 400, 1200]
+            t = 0
+            nsync = 0
+            for _ in range(rng.range(4, 16)):
+                what = rng.choice(["sync", "sync", "fwd", "back", "hold", "proc", "drop", "dup", "tamper", "inject",
+                                   "inject", "mclock", "wait", "wait"])
+                if what == "sync" and nsync < 4:
+                    tok = "abcd"[nsync]; nsync += 1
+                    sc.events.append((t, ("sync", tok))); sc.expect[tok] = "any"
+                elif what in ("fwd", "back", "hold"):
+                    sc.events.append((t, (what, rng.choice(small))))
+                elif what == "proc":
+                    sc.events.append((t, ("proc", rng.choice(small + [65535, 70000]))))
+                elif what == "drop":
+                    sc.events.append((t, ("drop", rng.choice(["fwd", "back"]))))
+                elif what == "dup":
+                    sc.events.append((t, ("dup", rng.choice(["fwd", "back"]), rng.choice([0, 1, 7, 150, 900, 2500]))))
+                elif what == "tamper":
+                    sc.events.append((t, rng.choice([("tamper", "objs", "340207010500"), ("tamper", "objs", "-"),
+                                                     ("tamper", "iin", "1000"), ("tamper", "iin", "0004"),
+                                                     ("tamper", "ctl", "40"), ("tamper", "ctl", "%02x" % rng.range(1, 15))])))
+                elif what == "inject":
+                    sc.events.append((t, ("inject_master", self.injections(rng, []))))
+                elif what == "mclock":
+                    sc.events.append((t, ("mclock", rng.choice(["on", "off"]))))
+                else:
+                    t += rng.choice([0, 1, 2, 5, 40, 300, 1000, 2000])
+            if nsync == 0:
+                sc.events.append((t, ("sync", "a"))); sc.expect["a"] = "any"
+            sc.end = t + 4 * 5003 * max(1, nsync) + 8000
+            return finish(sc, {"honest": False, "loose": True})
 
         if kind in ("plain", "varied", "inject"):
             if c0 > MAXTS - 500000 and rng.chance(2, 3):
